@@ -339,7 +339,10 @@ class PercentFormatString:
                     else:
                         non_literals.append(pair.key)
                 # specifiers without a mapping key (already reported by lint()) have the key None
-                keys_left = {key for key in cs_map.keys() - seen_keys if key is not None}
+                # cs_map is in template order; keep it so that the message is deterministic.
+                keys_left = [
+                    key for key in cs_map if key is not None and key not in seen_keys
+                ]
                 if keys_left and not non_literals:
                     yield f"No value specified for keys {', '.join(keys_left)}"
         else:
